@@ -256,4 +256,22 @@ pub fn fmt_check<T: StrApi>(run: &mut Run) {
         }
     });
     run.merge(&config, "values x 8 traits x 56 flag combinations x widths", "format", xs.len() as u64 * 8 * N_COMBOS as u64, l);
+    if huge && !T::SIGNED {
+        // every bit length: 2^b - 1 through Display and LowerExp (numeral-length estimates derived from the bit
+        // length go wrong at isolated bit lengths only)
+        let all_b: Vec<u64> = (1..=bits as u64).collect();
+        let one_z = Z::from_i128(1);
+        let l = par_chunks(run.threads, all_b.len(), |lo, hi, l| {
+            for &b in &all_b[lo..hi] {
+                let zx = Z::pow2(b).sub(&one_z);
+                let x = T::from_z(&zx);
+                let wide = Wide::new(&zx, T::ti());
+                one::<T>(&cfg, &x, &zx, Some(&wide), 0, 0, 0, l);
+                if b % 8 == 1 {
+                    one::<T>(&cfg, &x, &zx, Some(&wide), 6, 0, 0, l);
+                }
+            }
+        });
+        run.merge(&config, "HUGE: 2^b - 1 for every bit length b, Display (LowerExp for every 8th)", "format", all_b.len() as u64, l);
+    }
 }
